@@ -689,7 +689,9 @@ func (r *run) quiesce() bool {
 			it-- // waiting is not a release
 			continue
 		}
-		if dlRest && rdRest && r.e.find("drv") == nil && (g == nil || len(g.chA) == 0) {
+		// (a block that was handed to the driver and is neither stored nor dropped by a rewind is still in its hands, however
+		// long its goroutine takes to reach the next gate on a loaded machine: that is not rest)
+		if dlRest && rdRest && r.e.find("drv") == nil && (g == nil || len(g.chA) == 0) && atomic.LoadInt32(&r.n.inflight) == 0 {
 			// a tracked block that is not canonical must lead to a notification; a detection that collides with an earlier
 			// one of the same second is retried by the detector on a later tick: give it that second
 			if r.staleTracked() {
